@@ -171,3 +171,119 @@ func runObjectHistories() {
 			l.Distinct("nontrivial", fmt.Sprint("ohist", seq))
 		})
 }
+
+// Margins on one pair of sides only. Aztec needs no quiet zone, and white space next to a symbol
+// cannot make a clean image less clean: if a symbol is read when it fills a square image completely
+// (quiet zone 0) and when the same image has m white modules on all four sides, it must also be
+// read with the m modules only above and below it (a tall image), and only left and right of it
+// (a wide image) - the symbol stays centred in all four. The expectation comes from the library's
+// own two square readings (a differential oracle); a text other than the encoded one is a
+// violation in any case.
+type asymCase struct {
+	Sub     string // "asym"
+	Compact bool
+	Layers  int
+	Text    string
+	Rot     int
+	Scale   int
+	M       int
+}
+
+func readGray(l *mc.Local, img *image.Gray) (o outcome) {
+	l.Beat("")
+	o.panicM, o.site = mc.Guard(func() {
+		bmp, e := gozxing.NewBinaryBitmapFromImage(img)
+		if e != nil {
+			o.err = e
+			return
+		}
+		res, e := gzaztec.NewAztecReader().Decode(bmp, nil)
+		if e != nil {
+			o.err = e
+			return
+		}
+		o.text = res.GetText()
+		o.format = res.GetBarcodeFormat()
+	})
+	l.Count("evaluations", 1)
+	return o
+}
+
+func padGray(src *image.Gray, lr, tb int) *image.Gray {
+	sw, sh := src.Bounds().Dx(), src.Bounds().Dy()
+	dst := image.NewGray(image.Rect(0, 0, sw+2*lr, sh+2*tb))
+	for k := range dst.Pix {
+		dst.Pix[k] = 255
+	}
+	for y := 0; y < sh; y++ {
+		copy(dst.Pix[(y+tb)*dst.Stride+lr:(y+tb)*dst.Stride+lr+sw], src.Pix[y*src.Stride:y*src.Stride+sw])
+	}
+	return dst
+}
+
+func asymOne(l *mc.Local, c asymCase) {
+	var s *shapeSet
+	for i := range sets {
+		if sets[i].sh == (shape{c.Compact, c.Layers}) {
+			s = &sets[i]
+		}
+	}
+	if s == nil {
+		return
+	}
+	tx := s.fills[0]
+	sym := encodeRef(s.sh, tx)
+	bare := az.Render(sym.Matrix, c.Scale, 0, c.Rot)
+	px := c.M * c.Scale
+	sq0, sqm := readGray(l, bare), readGray(l, padGray(bare, px, px))
+	for _, v := range []struct {
+		name   string
+		lr, tb int
+	}{{"tall", 0, px}, {"wide", px, 0}} {
+		o := readGray(l, padGray(bare, v.lr, v.tb))
+		cls := o.class(tx.Want)
+		desc := fmt.Sprintf("%v script %s at scale %d rotated %d deg with %d white modules only %s", s.sh, tx.Name, c.Scale, c.Rot*90, c.M, map[string]string{"tall": "above and below", "wide": "left and right"}[v.name])
+		switch {
+		case o.panicM != "":
+			chk.Violation("C11/canvas/panic/"+o.site, desc+": panic "+o.panicM, c)
+		case cls == "wrong-text":
+			chk.Violation("C11/canvas/"+v.name+"/wrong-text", desc+": "+o.describe(), c)
+		case cls != "ok" && sq0.ok(tx.Want) && sqm.ok(tx.Want):
+			chk.Violation("C11/canvas/"+v.name+"/margin-on-one-pair-of-sides", desc+": "+o.describe()+", although the symbol is read both without any margin and with that margin on all four sides", c)
+		case cls == "ok":
+			l.Distinct("nontrivial", fmt.Sprint("asym/", s.sh, c.Rot, c.Scale, c.M, v.name))
+			l.Distinct("outcomes", "asym/"+v.name+"/ok")
+		default:
+			l.Count(fmt.Sprintf("asym/premise-not-met/scale=%d (a square reading fails as well)", c.Scale), 1)
+			l.Distinct("outcomes", "asym/"+v.name+"/premise-not-met")
+		}
+	}
+}
+
+func runAsymMargins() {
+	var jobs []asymCase
+	scales := []int{2, 3, 4}
+	ms := []int{1, 2, 5, 11}
+	for si := range sets {
+		sh := sets[si].sh
+		if chk.Quick() && sh.totalWords() > 400 && sh.Layers%5 != 0 {
+			continue
+		}
+		for rot := 0; rot < 4; rot++ {
+			for _, sc := range scales {
+				for _, m := range ms {
+					if chk.Quick() && !sh.Compact && (rot+sc+m)%2 == 0 {
+						continue
+					}
+					jobs = append(jobs, asymCase{"asym", sh.Compact, sh.Layers, sets[si].fills[0].Name, rot, sc, m})
+				}
+			}
+		}
+	}
+	chk.Range(fmt.Sprintf("reader, white margin on ONE pair of sides only (tall and wide images, symbol centred): shapes x 4 rotations x scales {2,3,4} x margins {1,2,5,11} modules [%d cases, 4 readings each]: read whenever both square readings (no margin, margin all round) succeed", len(jobs)), len(jobs),
+		func(i int) string { return fmt.Sprintf("%+v", jobs[i]) },
+		func(l *mc.Local, i int) { asymOne(l, jobs[i]) })
+	if len(jobs) > 0 {
+		chk.Sample("asym", jobs[0])
+	}
+}
